@@ -21,6 +21,23 @@ pub fn run_case(f: &[&str]) -> String {
     let dir = std::env::var("TH_SOCK_DIR").unwrap_or_else(|_| "/tmp".into());
     let path = std::path::PathBuf::from(format!("{}/s{}.sock", dir, std::process::id()));
     let _ = std::fs::remove_file(&path);
+    let os_tids = || -> std::collections::HashSet<String> {
+        std::fs::read_dir("/proc/self/task")
+            .map(|d| d.filter_map(|e| e.ok()).map(|e| e.file_name().to_string_lossy().to_string()).collect())
+            .unwrap_or_default()
+    };
+    let baseline = os_tids();
+    // kind m: two listening addresses are configured (127.0.0.1 and 127.0.0.2, ports found beforehand)
+    let (m1, m2) = if kind == "m" {
+        let a = std::net::TcpListener::bind("127.0.0.1:0").unwrap();
+        let b = std::net::TcpListener::bind("127.0.0.2:0").unwrap();
+        let r = (a.local_addr().unwrap(), b.local_addr().unwrap());
+        drop(a);
+        drop(b);
+        (Some(r.0), Some(r.1))
+    } else {
+        (None, None)
+    };
     // kind n: a UNIX-socket server built with Server::from_listener from a NON-BLOCKING listener: accept() fails at once
     // (WouldBlock), the accept loop ends and closes the listener long before the server is dropped
     // kind 2: a TCP server bound to a specific address that is not 127.0.0.1
@@ -28,6 +45,8 @@ pub fn run_case(f: &[&str]) -> String {
         Server::http("127.0.0.1:0").unwrap()
     } else if kind == "2" {
         Server::http("127.0.0.2:0").unwrap()
+    } else if kind == "m" {
+        Server::http(&[m1.unwrap(), m2.unwrap()][..]).unwrap()
     } else if kind == "n" {
         let l = std::os::unix::net::UnixListener::bind(&path).unwrap();
         l.set_nonblocking(true).unwrap();
@@ -35,7 +54,7 @@ pub fn run_case(f: &[&str]) -> String {
     } else {
         Server::http_unix(&path).unwrap()
     });
-    let addr = if kind == "t" || kind == "2" { Some(server.as_ref().unwrap().server_addr().to_ip().unwrap()) } else { None };
+    let addr = if kind == "t" || kind == "2" || kind == "m" { Some(server.as_ref().unwrap().server_addr().to_ip().unwrap()) } else { None };
     let connect = |timeout_ms: u64| -> Result<crate::cv::Conn, String> {
         if let Some(a) = addr {
             std::net::TcpStream::connect_timeout(&a, Duration::from_millis(timeout_ms)).map(crate::cv::Conn::T).map_err(|e| format!("{:?}", e.kind()))
@@ -96,6 +115,43 @@ pub fn run_case(f: &[&str]) -> String {
                 }
             }
             out.push(format!("x{}={}", k, res));
+        } else if op == "k" {
+            // every client closes its connection
+            clients.clear();
+        } else if op == "n" {
+            // threads started since the server was created that are still alive: while the server lives and nothing is
+            // going on, at most the accept thread and the pool's four workers (polled 2 s); none once it has been dropped
+            // (polled 6.5 s: one idle period)
+            let bound = if server.is_some() { 5 } else { 0 };
+            // (after the drop the workers leave when their current idle wait of up to 5 s runs out)
+            let patience = if server.is_some() { 2000 } else { 6500 };
+            let t0 = Instant::now();
+            let mut cnt;
+            loop {
+                cnt = os_tids().iter().filter(|t| !baseline.contains(*t)).count();
+                if cnt <= bound || t0.elapsed() > Duration::from_millis(patience) {
+                    break;
+                }
+                std::thread::sleep(Duration::from_millis(20));
+            }
+            out.push(format!("thr={}", if cnt <= bound { "ok".to_string() } else { format!("{}>{}", cnt, bound) }));
+        } else if let Some(k) = op.strip_prefix('y') {
+            // kind m: a connection attempt to the SECOND configured address (retried for 1 s for a refusal)
+            let t0 = Instant::now();
+            let mut res = "connected".to_string();
+            while t0.elapsed() < Duration::from_millis(1000) {
+                match std::net::TcpStream::connect_timeout(&m2.unwrap(), Duration::from_millis(200)) {
+                    Err(_) => {
+                        res = "refused".to_string();
+                        break;
+                    }
+                    Ok(c) => {
+                        drop(c);
+                        std::thread::sleep(Duration::from_millis(300));
+                    }
+                }
+            }
+            out.push(format!("y{}={}", k, res));
         } else if op == "l" {
             let t0 = Instant::now();
             let mut open = true;
@@ -107,7 +163,7 @@ pub fn run_case(f: &[&str]) -> String {
             }
             out.push(format!("l={}", if open { "listening" } else { "closed" }));
         } else if op == "p" {
-            out.push(format!("p={}", if kind == "t" || kind == "2" { "na" } else if path.exists() { "there" } else { "gone" }));
+            out.push(format!("p={}", if kind == "t" || kind == "2" || kind == "m" { "na" } else if path.exists() { "there" } else { "gone" }));
         } else if op == "a" {
             let mut urls = Vec::new();
             for rq in held.drain(..) {
@@ -155,7 +211,7 @@ pub fn run_case(f: &[&str]) -> String {
 
 /// Does the kernel still list a listening socket bound to the server's address?
 fn listener_open(kind: &str, path: &std::path::Path, port: Option<u16>) -> bool {
-    if kind == "t" || kind == "2" {
+    if kind == "t" || kind == "2" || kind == "m" {
         let want = format!("0{}00007F:{:04X}", if kind == "2" { 2 } else { 1 }, port.unwrap_or(0));
         let t = std::fs::read_to_string("/proc/net/tcp").unwrap_or_default();
         t.lines().skip(1).any(|l| {
